@@ -1039,3 +1039,95 @@ def _identify_shifts_group(nlayers):
 
 for _n in (2, 3, 4):
     _identify_shifts_group(_n)
+
+
+# ----------------------------------------------------------------------------
+# build_disl_array: the cell shear and the expected number of deleted atoms (blocks extracted mechanically)
+
+import ast as _ast
+from pyvc.extract import extract as _extract_stmt, extract_range as _extract_range_stmt
+
+
+def _assign_to(name):
+    def sel(n):
+        return isinstance(n, _ast.Assign) and len(n.targets) == 1 and isinstance(n.targets[0], _ast.Name) and n.targets[0].id == name
+    return sel
+
+
+def _shear_group(lineindex, cutindex):
+    motionindex = 3 - lineindex - cutindex
+
+    @group('periodicarray.shear_and_count[line=%d,cut=%d]' % (lineindex, cutindex), files=[PARR, BOXF], functions=['Dislocation.build_disl_array (blocks: cell shear; expected deletions)'],
+           clause='build_disl_array, line along cell vector %d, cut %d (blocks extracted mechanically; symbolic cell with the line vector along the line axis and the in-plane vector in '
+                  'the slip plane, symbolic in-plane Burgers vector, both signs of m and of b.m): the in-plane cell vector is changed by -b/2 or +b/2 so that its extent along m '
+                  'shrinks by |b.m|/2, the other vectors, the origin and the atoms are untouched, periodicity is switched off across the cut only, and the number of atoms expected '
+                  'to be deleted is N |b.m| / (2 L) with L the extent of the in-plane vector along m -- the number implied by the edge component' % (lineindex, cutindex),
+           replay=_replay_generators, timeout_ms=30000)
+    def h_(E, L):
+        blockA, infoA = _extract_range_stmt(L, PARR, 'build_disl_array', _assign_to('newvects'), _assign_to('length'))
+        blockB, infoB = _extract_stmt(L, PARR, 'build_disl_array', _assign_to('expected'))
+        tagg = '[line=%d,cut=%d]' % (lineindex, cutindex)
+        E.prove('shear.blocks_found' + tagg, infoA['last_line'] > infoA['first_line'] and infoB['first_line'] > infoA['last_line'])
+        core = L.resolve('atomman.core')
+        Box = core.Box
+        first = True
+        for sm, bsign in itertools.product((1, -1), ('pos', 'neg')):
+            sfx = '_%s_%s' % ('p' if sm > 0 else 'm', bsign)
+            V = snp.zeros((3, 3), dtype=object)
+            V[lineindex, lineindex] = E.real('Lline' + sfx)
+            V[motionindex, lineindex] = E.real('vml' + sfx)
+            V[motionindex, motionindex] = E.real('vmm' + sfx)
+            for j in range(3):
+                V[cutindex, j] = E.real('vc%d%s' % (j, sfx))
+            E.assume(V[lineindex, lineindex] > 0)
+            E.assume(V[motionindex, motionindex] * sm > 0)            # the in-plane vector points along +m (it is the lattice vector closest to m)
+            E.assume(V[cutindex, cutindex] != 0)
+            b = snp.zeros(3, dtype=object)
+            b[lineindex] = E.real('bl' + sfx)
+            b[motionindex] = E.real('bm' + sfx)
+            m = _np.zeros(3)
+            m[motionindex] = sm
+            bm = b[motionindex] * sm                                  # b.m
+            E.assume(bm > 0 if bsign == 'pos' else bm <= 0)
+            E.assume(bm < V[motionindex, motionindex] * sm)
+            E.assume(-bm < V[motionindex, motionindex] * sm)
+            o = E.reals('o', (3,))
+            if first:
+                E.canary('shear.canary' + tagg, b[motionindex] == o[0])
+                first = False
+
+            class A(object):
+                pass
+            base = A()
+            base.box = A()
+            base.box.origin = o
+            base.natoms = 240
+            E.side_enabled = False
+            out = blockA(dict(vects=V.copy(), burgers=b, m=m, motionindex=motionindex, cutindex=cutindex, base_system=base))
+            tag = 'shear[m=%+d,b.m %s]%s' % (sm, bsign, tagg)
+            nv = out['newvects']
+            half = realconst(Fraction(1, 2))
+            for i in range(3):
+                for j in range(3):
+                    want = V[i, j] - ((b[j] * half) if bsign == 'pos' else -(b[j] * half)) if i == motionindex else V[i, j]
+                    E.prove(tag + '.new_cell[%d,%d]' % (i, j), nv[i, j] == want)
+            absbm = bm if bsign == 'pos' else -bm
+            E.prove(tag + '.extent_along_m_shrinks_by_half_edge', dot3(nv[motionindex], m) == dot3(V[motionindex], m) - absbm * half)
+            nb = out['newbox']
+            for j in range(3):
+                E.prove(tag + '.origin_kept[%d]' % j, nb._Box__origin[j] == o[j])
+            E.prove(tag + '.periodic_except_across_cut', list(out['newpbc']) == [i != cutindex for i in range(3)])
+            Lm = V[motionindex, motionindex] * sm
+            E.prove(tag + '.length_is_extent_along_m', out['length'] == Lm)
+            base.box.volume = sym_abs(det3(V))
+            nbx = A()
+            nbx.volume = sym_abs(det3(nv))
+            outB = blockB(dict(base_system=base, newbox=nbx))
+            E.side_enabled = True
+            E.prove(tag + '.expected_deletions', outB['expected'] * (2 * Lm) == 240 * absbm)
+            E.reachable(tag + '.preconditions_satisfiable')
+    return h_
+
+
+for _li, _ci in ((0, 2), (2, 1), (1, 0), (1, 2), (0, 1), (2, 0)):
+    _shear_group(_li, _ci)
